@@ -376,6 +376,12 @@ func genC12(g *G) {
 			b[15] = byte(g.Rnd.IntN(3))
 			return "6:" + H(b) + "%" + []string{"-", HS("a"), HS("b"), HS("eth0")}[g.Rnd.IntN(4)]
 		}
+		if g.Rnd.IntN(3) == 0 {
+			// one network, interface identifiers far apart: the difference sits in any one byte and is large
+			b := []byte{0xfe, 0x80, 0, 0, 0, 0, 0, 0, 0, 0, 0, 0, 0, 0, 0, 1}
+			b[g.Rnd.IntN(16)] = []byte{0, 1, 0x7f, 0x80, 0xa8, 0xff}[g.Rnd.IntN(6)]
+			return "6:" + H(b) + "%-"
+		}
 		b := make([]byte, 16)
 		b[0] = byte(g.Rnd.IntN(2)) * 0x20
 		b[15] = byte(g.Rnd.IntN(3))
